@@ -33,7 +33,7 @@ from explorerscript.util import exps_int
 class SimpleDefCompileHandler(AbstractFuncdefCompileHandler[ExplorerScriptParser.Simple_defContext]):
     def collect(self) -> Any:
         """Collects routine info and operations."""
-        return SsbRoutineInfo(SsbRoutineType.GENERIC, 0), self.collect_ops()
+        return SsbRoutineInfo(SsbRoutineType.GENERIC, 0), self.collect_routine_ops()
 
     def get_new_routine_id(self, old_id: int) -> int:
         return exps_int(str(self.ctx.INTEGER()))
